@@ -37,7 +37,13 @@ ASSUMPTIONS = [
 ]
 
 HEADER = ("From Coq Require Import ZArith List Bool.\n"
-          "From TV Require Import model.Tak model.Lit model.Symmetry.\nImport ListNotations.")
+          "From TV Require Import model.Tak model.Road model.Lit model.Symmetry.\nImport ListNotations.\n"
+          "Definition oc_eqb (a b : option color) : bool := match a, b with None, None => true "
+          "| Some x, Some y => color_eqb x y | _, _ => false end.\n"
+          "Definition rs_eqb (a b : option reason) : bool := match a, b with None, None => true "
+          "| Some Road, Some Road => true | Some Flats, Some Flats => true | _, _ => false end.\n"
+          "Definition out_eqb (a b : (option color * option reason) * option color) : bool := "
+          "oc_eqb (fst (fst a)) (fst (fst b)) && rs_eqb (snd (fst a)) (snd (fst b)) && oc_eqb (snd a) (snd b).")
 
 
 # --------------------------------------------------------------------------
@@ -151,6 +157,79 @@ def _line(n, horizontal, at, kind_top=None):
                         ply=2 * n, board=board)
 
 
+def _stack_on(rng, color, kind):
+    """a stack with the given top; buried pieces of either colour"""
+    import tak
+    st = [tak.Piece.cached(color, kind)]
+    for _ in range(rng.choice([0, 0, 0, 1, 2])):
+        st.append(tak.Piece.cached(tak.Color(rng.randint(0, 1)), tak.Kind.FLAT))
+    return st
+
+
+def _double_road(rng, n, horizontal, ply):
+    """both colours have a road at once.  Two roads of different colours can only run the same way (a left-right
+    and a bottom-top path always share a square), so: both left-right or both bottom-top; one capstone in each."""
+    import tak
+    W, B = tak.Color.WHITE, tak.Color.BLACK
+    F, C = tak.Kind.FLAT, tak.Kind.CAPSTONE
+    rw, rb = rng.sample(range(n), 2)
+    board = [[] for _ in range(n * n)]
+    cw, cb = rng.randrange(n), rng.randrange(n)
+    for k in range(n):
+        for (r, col, cap) in ((rw, W, cw), (rb, B, cb)):
+            x, y = (k, r) if horizontal else (r, k)
+            board[x + y * n] = _stack_on(rng, col, C if k == cap else F)
+    c = tak.Config(size=n)
+    stones = (tak.StoneCounts(c.flat_count - n + 1, max(c.capstone_count, 1) - 1),
+              tak.StoneCounts(c.flat_count - n + 1, max(c.capstone_count, 1) - 1))
+    return tak.Position(size=n, stones=stones, ply=ply, board=board)
+
+
+def _both_axes(rng, n, color_value, ply):
+    """one colour has a left-right AND a bottom-top road (a cross through a random row and column)"""
+    import tak
+    col = tak.Color(color_value)
+    r, cc = rng.randrange(n), rng.randrange(n)
+    board = [[] for _ in range(n * n)]
+    for k in range(n):
+        board[k + r * n] = _stack_on(rng, col, tak.Kind.FLAT)
+        board[cc + k * n] = _stack_on(rng, col, tak.Kind.CAPSTONE if k == (r + 1) % n else tak.Kind.FLAT)
+    c = tak.Config(size=n)
+    return tak.Position(size=n, stones=(tak.StoneCounts(c.flat_count, c.capstone_count),) * 2, ply=ply, board=board)
+
+
+def finished_positions(rng, k_random):
+    """positions whose outcome is decided, built on purpose (playouts almost never give two roads at once):
+    double roads (both axes' worth, both ply parities, every size, a capstone in each road), one colour with roads on
+    both axes, and - borrowed from the C02 harness - self-avoiding roads with every perturbation (wall / opposing
+    capstone / buried piece / hole on the path, crossing and PARALLEL roads of both colours), full boards with equal
+    and unequal flat counts, and every reserve state (either / both sides exhausted, capstone only, ...)"""
+    from . import c02
+    out = []
+    for n in range(3, 9):
+        for horizontal in (True, False):
+            for parity in (0, 1):
+                out.append((f"double-road{n}-{'h' if horizontal else 'v'}{parity}",
+                            _double_road(rng, n, horizontal, 2 * n + 2 + parity)))
+        out.append((f"both-axes{n}", _both_axes(rng, n, n % 2, 2 * n + (n // 2) % 2)))
+    kinds = list(c02.PERTURB) + ["parallel", "parallel", "parallel"]
+    for i in range(k_random):
+        n = rng.choice([3, 4, 4, 5, 5, 6, 6, 7, 8])
+        stones, state = c02.gen_reserves(rng, n)
+        ply = rng.randint(2, 81)
+        r = i % 5
+        if r < 3:
+            kind = kinds[i % len(kinds)]
+            out.append((f"c02road{n}-{kind}", c02.mkpos(n, c02.road_board(rng, n, kind), ply, stones)))
+        elif r == 3:
+            board = c02.full_equal_flats(rng, n) if i % 2 else c02.random_board(rng, n, 1.0, rng.choice([0.3, 0.5, 0.8]), 0.15)
+            out.append((f"c02full{n}", c02.mkpos(n, board, ply, stones)))
+        else:
+            stones, state = c02.gen_reserves(rng, n, rng.choice(["w0", "b0", "both0", "w_caponly", "one_left"]))
+            out.append((f"c02reserve{n}-{state}", c02.mkpos(n, c02.random_board(rng, n, rng.choice([0.2, 0.5]), 0.5, 0.15), ply, stones)))
+    return out
+
+
 def positions(run, count):
     """[(label, position)]: fixed special positions first, then a seeded mix"""
     import tak
@@ -166,6 +245,7 @@ def positions(run, count):
     for m in [tak.Move(0, 0), tak.Move(4, 4), tak.Move(2, 2, tak.MoveType.PLACE_CAPSTONE), tak.Move(1, 3, tak.MoveType.PLACE_STANDING)]:
         p = p.move(m)
     out.append(("custom5-opening", p))
+    out += finished_positions(rng, max(40, count // 8))
     sizes = [3, 3, 4, 4, 5, 5, 5, 6, 6, 7, 8]
     groups = list(SUBGROUPS)
     while len(out) < count:
@@ -269,6 +349,7 @@ def oracle_position(p, ms):
     n = p.size
     base = [(_try_move(p, m)) for m in ms]
     pw = p.winner()
+    ph = p.has_road()
     ts = []
     for k, s in enumerate(S.SYMMETRIES):
         try:
@@ -283,9 +364,10 @@ def oracle_position(p, ms):
         if len(t.board) != n * n or any(t.board[_act(s, n, x, y)[0] + _act(s, n, x, y)[1] * n] != p.board[x + y * n]
                                         for x in range(n) for y in range(n)):
             return {"clause": "the transformed board holds at g(v) what the board held at v", "sym": k}
-        if t.winner() != pw:
+        if t.winner() != pw or t.has_road() != ph:
             return {"clause": "game outcome is unchanged by a transformation", "sym": k,
-                    "before": repr(pw), "after": repr(t.winner())}
+                    "before": repr((pw, ph)), "after": repr((t.winner(), t.has_road())),
+                    "transformed": takio.j_pos(t)}
         for m, (st, r) in zip(ms, base):
             try:
                 m2 = S.transform_move(s, m, n)
@@ -329,26 +411,36 @@ def c_mat(m):
     return clist([core.czlist([int(v) for v in row]) for row in m])
 
 
+def _c_outcome(w, h):
+    reason = "None" if w[1] is None else ("(Some Road)" if w[1].name == "ROAD" else "(Some Flats)")
+    return f"(({takio.c_color(w[0])}, {reason}), {takio.c_color(h)})"
+
+
 def _cases_positions(run, plist):
     from tak.symmetry import symmetry as S
-    cs = core.Cases(ID, "tp", HEADER, "position * list position * list (mat * position)",
-                    "fun c => let '(p, ts, vs) := c in "
-                    "list_eqb position_eqb (map (fun g => transform_position g p) syms) ts && variants_eqb (symmetries p) vs",
-                    show="fun c => let '(p, ts, vs) := c in "
+    cs = core.Cases(ID, "tp", HEADER,
+                    "position * list position * list (mat * position) * list ((option color * option reason) * option color)",
+                    "fun c => let '(p, ts, vs, ws) := c in "
+                    "list_eqb position_eqb (map (fun g => transform_position g p) syms) ts && variants_eqb (symmetries p) vs && "
+                    "list_eqb out_eqb (map (fun g => (winner (transform_position g p), has_road (transform_position g p))) syms) ws",
+                    show="fun c => let '(p, ts, vs, ws) := c in "
                          "(map (fun gt => position_eqb (transform_position (fst gt) p) (snd gt)) (combine syms ts), "
                          "Z.of_nat (length syms), variants_eqb (symmetries p) vs, "
-                         "map (fun gq => existsb (mat_eqb (fst gq)) syms) (symmetries p), Z.of_nat (length (symmetries p)))",
+                         "map (fun gq => existsb (mat_eqb (fst gq)) syms) (symmetries p), Z.of_nat (length (symmetries p)), "
+                         "map (fun g => (winner (transform_position g p), has_road (transform_position g p))) syms, ws)",
                     shard=12)
     crashes = []
     for label, p in plist:
         try:
             ts = [S.transform_position(s, p) for s in S.SYMMETRIES]
             vs = S.symmetries(p)
+            ws = [(t.winner(), t.has_road()) for t in ts]
         except Exception as e:  # noqa
             crashes.append((label, p, repr(e)))
             continue
         term = (f"({takio.c_pos(p)}, {clist([takio.c_pos(t) for t in ts])}, "
-                f"{clist(['(' + c_mat(s) + ', ' + takio.c_pos(q) + ')' for s, q in vs])})")
+                f"{clist(['(' + c_mat(s) + ', ' + takio.c_pos(q) + ')' for s, q in vs])}, "
+                f"{clist([_c_outcome(w, h) for w, h in ws])})")
         cs.add(term, {"kind": "transform_position+symmetries", "label": label, "pos": takio.j_pos(p), "n_variants": len(vs)})
     return cs, crashes
 
@@ -459,6 +551,7 @@ def correspondence(run):
                  tak.Config(size=p.size).flat_count)
     dist["custom_or_unequal_reserves"] = custom
     dist["finished_games"] = sum(1 for _, p in plist if p.winner()[1] is not None)
+    dist["built_double_roads"] = sum(1 for label, _ in plist if label.startswith("double-road") or label.endswith("-parallel"))
     nv = {}
     for m in cs.metas:
         nv[m["n_variants"]] = nv.get(m["n_variants"], 0) + 1
@@ -479,7 +572,7 @@ def correspondence(run):
                       {"clause": (verdict or {}).get("clause", "transform_position / symmetries differ from the model (proved to satisfy C15)"),
                        "input": {"kind": "position", "pos": meta["pos"], "moves": []}, "oracle": verdict,
                        "impl_variants": meta["n_variants"],
-                       "model_view(per-matrix agreement, |syms|, variants agree, matrices known, |symmetries p|)":
+                       "model_view(per-matrix agreement, |syms|, variants agree, matrices known, |symmetries p|, model outcomes, impl outcomes)":
                            cs.model_view(cs.terms[cs.metas.index(meta)])},
                       found_input=verdict is not None)
 
